@@ -10,8 +10,11 @@ system over an abstract lock backend.
         identifier = str(uuid.uuid4())                                  -- `enter`   (fresh token)
         while True:
             lock = await self.set_lock(key, identifier, expire=expire)  -- `attempt`
+            if lock is None:                                            -- SET_LOCK disabled on the owning backend
+                yield; return                                           --   "no locking": task is `unguarded`
             if not lock:
-                ... ping probe ...
+                if await self.ping(b"LOCK") is None:                    -- liveness probe of the OWNING backend
+                    yield; return                                       --   "backend down": task is `unguarded`
                 if wait:
                     await asyncio.sleep(check_interval)                 -- (other actions / `tick` / `giveUp` on cancel)
                     continue
@@ -28,6 +31,21 @@ only needs `set_lock` (write-if-absent-or-expired with a lease) and `unlock`
 (delete-iff-owner), each atomic.  Two instances are given: the in-memory model `Mem`
 (`Memory.set(exist=False)` + `Memory.unlock`) and the ideal `TtlMap` (which also is what
 Redis' `SET NX PX` and the owner-checked `_UNLOCK` script implement).
+
+Through the `Cache` facade every command of `lock()` is routed by the lock key to the backend that
+owns it (longest registered prefix, C17) and passes that backend's disable-control middleware: a
+disabled command answers `None`.  The two things `lock()` learns that way - "SET_LOCK is enabled",
+"the backend answers PING" - are the *inputs* of an attempt (`attemptCore`); `step` reads them off the
+owning backend (`s.health (s.route key)`), never off another configured backend.
+(Known deviation of /repo HEAD, reported with `proposed_fixes/C06_lock_probe_routed_by_key.diff`: the
+facade routes `ping(b"LOCK")` by the text of the message, i.e. to the default-prefix backend; the model
+states the intended behaviour and the harness keeps the two backends' PING health aligned.)
+
+Transactions (`cache.transaction(mode)`, a ContextVar-scoped overlay per real task =: thread):
+`TransactionBackend.set_lock / unlock / is_locked / ping` proxy to the wrapped backend, i.e. the lock
+commands BYPASS the overlay.  The state carries the overlay of every thread (`tx`), the actions
+`txBegin / txSet / txEnd` change only that, and the lock actions are applied to the shared store `be`
+whatever transaction is current (`Props/C06.lean: lock_commands_bypass_transactions`).
 
 Mathlib-free: the driver links against this file.
 -/
@@ -126,12 +144,34 @@ inductive TState where
   | idle
   | trying (key : Nat) (ttl : Option Nat) (wait : Bool) (tok : Nat)
   | inside (key : Nat) (tok : Nat) (dl : Option Nat)
+  | unguarded (key : Nat)   -- in the section WITHOUT a lock: `set_lock` disabled, or the probe got no answer
   | failed          -- `LockedError` (wait=False), or cancelled while waiting
   | done
   deriving DecidableEq, Repr
 
+/-- `cashews.wrapper.transaction.TransactionMode` -/
+inductive TxMode where
+  | fast | locked | serializable
+  deriving DecidableEq, Repr
+
+/-- the transaction a thread (a real task: the ContextVar `_transaction`) is in.
+`overlay` = the private view (`TransactionBackend._local_cache`): pending writes of application keys. -/
+structure TxCtx where
+  mode    : TxMode
+  depth   : Nat                  -- inner `async with cache.transaction()` blocks join the running one
+  overlay : List (Nat × Nat)
+  deriving DecidableEq, Repr
+
+/-- what `lock()` can learn about one configured backend through the facade's middlewares -/
+structure Health where
+  setLock : Bool     -- `Command.SET_LOCK` is enabled (a disabled command answers None)
+  ping    : Bool     -- `ping(b"LOCK")` is answered (`Command.PING` enabled and the server reachable)
+  deriving DecidableEq, Repr
+
+def Health.ok : Health := ⟨true, true⟩
+
 inductive Act where
-  | enter (t : Nat) (key : Nat) (ttl : Option Nat) (wait : Bool)
+  | enter (t : Nat) (th : Nat) (key : Nat) (ttl : Option Nat) (wait : Bool)   -- thread `th` calls `lock()`
   | attempt (t : Nat)
   | leave (t : Nat) (how : How)
   | giveUp (t : Nat)                       -- cancellation delivered while waiting for the lock
@@ -139,6 +179,10 @@ inductive Act where
   | foreignUnlock (key : Nat) (n : Nat)    -- `unlock(key, <a value that no lock() call generated>)`
   | probe (key : Nat)                      -- `is_locked(key)`
   | purge
+  | setHealth (b : Nat) (h : Health)       -- `cache.disable/enable(cmd, prefix=…)`, an outage of backend `b`
+  | txBegin (th : Nat) (mode : TxMode)     -- `async with cache.transaction(mode):` entered by thread `th`
+  | txSet (th : Nat) (k v : Nat)           -- `cache.set(<application key>, v)` by thread `th`
+  | txEnd (th : Nat) (commit : Bool)       -- the block is left (commit / rollback)
   deriving Repr
 
 inductive LOut where
@@ -146,6 +190,8 @@ inductive LOut where
   | acquired                 -- `set_lock` returned True; the task is in the section
   | retry                    -- `set_lock` returned False, wait=True
   | locked                   -- `set_lock` returned False, wait=False: `LockedError`
+  | noLocking                -- `set_lock` answered None (disabled): the section runs without a lock
+  | down                     -- `set_lock` returned False and the probe got no answer: the section runs without a lock
   | released (b : Bool)      -- result of the `unlock` in `finally`
   | bool (b : Bool)          -- result of a foreign `unlock` / `is_locked`
   | ignored                  -- the action is not enabled in this state (nothing happens)
@@ -155,6 +201,10 @@ structure LockSt (σ : Type) where
   be    : σ
   tasks : Nat → TState
   next  : Nat                -- uuid4 modelled as a fresh-token counter
+  thr   : Nat → Nat          -- the thread (real task) an activation belongs to
+  tx    : Nat → Option TxCtx -- the transaction each thread is in
+  route : Nat → Nat          -- lock key ↦ the backend that owns it (`Wrapper._get_backend`, C17); fixed
+  health : Nat → Health      -- per configured backend
 
 /-- the value a `lock()` call stores: its identifier -/
 def ownTok (n : Nat) : Val := .tok n
@@ -168,6 +218,7 @@ def setTask {σ} (s : LockSt σ) (t : Nat) (x : TState) : LockSt σ :=
 def TState.busy : TState → Bool
   | .trying .. => true
   | .inside .. => true
+  | .unguarded .. => true
   | _ => false
 
 /-- the identifier an activation carries -/
@@ -176,24 +227,49 @@ def TState.tok? : TState → Option Nat
   | .inside _ tok _ => some tok
   | _ => none
 
+/-- One pass of the `while True:` body of `lock()` for an activation that is `trying`, with what the
+facade lets it learn about the backend as explicit inputs: `h.setLock` (is the command enabled) and
+`h.ping` (the probe's answer, consulted only after a refused `set_lock`). -/
+def attemptCore {σ} (B : LockOps σ) (s : LockSt σ) (t : Nat) (key : Nat) (ttl : Option Nat) (wait : Bool)
+    (tok : Nat) (h : Health) : LockSt σ × LOut :=
+  if h.setLock then
+    let r := B.setLock s.be key (ownTok tok) ttl
+    if r.2 then
+      (setTask { s with be := r.1 } t (.inside key tok (deadlineOf (B.now s.be) ttl)), .acquired)
+    else if h.ping then
+      if wait then ({ s with be := r.1 }, .retry)
+      else (setTask { s with be := r.1 } t .failed, .locked)
+    else (setTask { s with be := r.1 } t (.unguarded key), .down)
+  else (setTask s t (.unguarded key), .noLocking)
+
+def txBegin (c : Option TxCtx) (mode : TxMode) : Option TxCtx :=
+  match c with
+  | none => some { mode := mode, depth := 0, overlay := [] }
+  | some c => some { c with depth := c.depth + 1 }       -- `if self.current_tx: self._inner += 1`
+
+def txEnd (c : Option TxCtx) : Option TxCtx :=
+  match c with
+  | none => none
+  | some c => if c.depth = 0 then none else some { c with depth := c.depth - 1 }
+
+def setTx {σ} (s : LockSt σ) (th : Nat) (c : Option TxCtx) : LockSt σ :=
+  { s with tx := fun th' => if th' = th then c else s.tx th' }
+
 def step {σ} (B : LockOps σ) (s : LockSt σ) : Act → LockSt σ × LOut
-  | .enter t key ttl wait =>
+  | .enter t th key ttl wait =>
     if (s.tasks t).busy then (s, .ignored)
-    else ({ setTask s t (.trying key ttl wait s.next) with next := s.next + 1 }, .unit)
+    else ({ setTask s t (.trying key ttl wait s.next) with
+            next := s.next + 1, thr := fun t' => if t' = t then th else s.thr t' }, .unit)
   | .attempt t =>
     match s.tasks t with
-    | .trying key ttl wait tok =>
-      let r := B.setLock s.be key (ownTok tok) ttl
-      if r.2 then
-        (setTask { s with be := r.1 } t (.inside key tok (deadlineOf (B.now s.be) ttl)), .acquired)
-      else if wait then ({ s with be := r.1 }, .retry)
-      else (setTask { s with be := r.1 } t .failed, .locked)
+    | .trying key ttl wait tok => attemptCore B s t key ttl wait tok (s.health (s.route key))
     | _ => (s, .ignored)
   | .leave t _ =>
     match s.tasks t with
     | .inside key tok _ =>
       let r := B.unlock s.be key (ownTok tok)
       (setTask { s with be := r.1 } t .done, .released r.2)
+    | .unguarded _ => (setTask s t .done, .unit)         -- `yield; return`: no unlock is issued
     | _ => (s, .ignored)
   | .giveUp t =>
     match s.tasks t with
@@ -207,6 +283,16 @@ def step {σ} (B : LockOps σ) (s : LockSt σ) : Act → LockSt σ × LOut
     let r := B.isLocked s.be key
     ({ s with be := r.1 }, .bool r.2)
   | .purge => ({ s with be := B.purge s.be }, .unit)
+  | .setHealth b h => ({ s with health := fun b' => if b' = b then h else s.health b' }, .unit)
+  | .txBegin th mode => (setTx s th (txBegin (s.tx th) mode), .unit)
+  | .txSet th k v =>
+    match s.tx th with
+    | some c => (setTx s th (some { c with overlay := (k, v) :: c.overlay }), .unit)
+    | none => (s, .ignored)                              -- a plain write of an application key: not a lock matter
+  | .txEnd th _ =>
+    match s.tx th with
+    | some _ => (setTx s th (txEnd (s.tx th)), .unit)    -- flushes / drops application keys only
+    | none => (s, .ignored)
 
 def run {σ} (B : LockOps σ) (s : LockSt σ) : List Act → LockSt σ
   | [] => s
@@ -216,13 +302,35 @@ def outs {σ} (B : LockOps σ) (s : LockSt σ) : List Act → List LOut
   | [] => []
   | a :: as => (step B s a).2 :: outs B (step B s a).1 as
 
-def init {σ} (be : σ) : LockSt σ := { be := be, tasks := fun _ => .idle, next := 0 }
+/-- nobody has called `lock()`, no transaction is open, a single healthy backend owns every key -/
+def init {σ} (be : σ) : LockSt σ :=
+  { be := be, tasks := fun _ => .idle, next := 0, thr := id, tx := fun _ => none,
+    route := fun _ => 0, health := fun _ => Health.ok }
+
+/-- the same with `n`-keys-per-backend routing (`key / n`) -/
+def initRouted {σ} (be : σ) (n : Nat) : LockSt σ := { init be with route := fun k => k / n }
 
 /-- task `t` is in the section guarded by `key` -/
 def insideKey {σ} (s : LockSt σ) (t : Nat) (key : Nat) : Bool :=
   match s.tasks t with
   | .inside k _ _ => k == key
   | _ => false
+
+/-- task `t` is in the section guarded by `key`, with or without a lock -/
+def inSection {σ} (s : LockSt σ) (t : Nat) (key : Nat) : Bool :=
+  match s.tasks t with
+  | .inside k _ _ => k == key
+  | .unguarded k => k == key
+  | _ => false
+
+/-- task `t` holds a lock whose lease has run out (it overstayed) -/
+def overstayed {σ} (B : LockOps σ) (s : LockSt σ) (t : Nat) : Bool :=
+  match s.tasks t with
+  | .inside _ _ dl => !liveAt dl (B.now s.be)
+  | _ => false
+
+/-- the thread of activation `t` is inside a `cache.transaction()` block -/
+def inTx {σ} (s : LockSt σ) (t : Nat) : Bool := (s.tx (s.thr t)).isSome
 
 /-- task `t` is in a section and its lease has not run out -/
 def withinLease {σ} (B : LockOps σ) (s : LockSt σ) (t : Nat) : Bool :=
